@@ -772,3 +772,11 @@ Section Statements.
     rewrite Forall_forall in *. intros s0 Hin. apply Hrest. now apply in_map.
   Qed.
 End Statements.
+
+(* ================================================================== repeated / interleaved calls *)
+Lemma stacks_calls_lemma : forall shorten clean os p,
+  stacks_calls shorten clean os p = (map (fun o => stacks_of shorten clean o p) os, p).
+Proof.
+  intros shorten clean os p. induction os as [|o r IH]; simpl; [reflexivity|].
+  unfold stacks_call. rewrite IH. reflexivity.
+Qed.
